@@ -1,6 +1,7 @@
-(* C02 (partial, proof level): json.Unmarshal accepts, rejects and decodes like encoding/json -- the scalar core.
-   The reflection-driven decoder as a whole is decided by differential execution only; proved here, for EVERY
-   input, are the scanners and the string / integer decoders that every decoder path ends in. *)
+(* C02 (partial, proof level): json.Unmarshal accepts, rejects and decodes like encoding/json.
+   First the scalar core: proved for EVERY input are the scanners and the string / integer decoders that every decoder
+   path ends in. Then (second half of this file) the structural decoder over a typed value tree. Outside that type
+   universe the reflection-driven decoder is decided by differential execution only. *)
 From Verif Require Import Base.GoInt Json.Spec Json.FlagsSpec Json.FlagsIntProofs Json.FlagsKindProofs
   Json.StrSpec Json.NumSpec Json.StrSpecProofs Json.StrDecProofs Json.StrLinkProofs Json.NumProofs.
 
@@ -46,3 +47,92 @@ Theorem c02_string_round_trip : string_round_trip_statement.
 Proof. exact StrLinkProofs.string_round_trip. Qed.
 Theorem c02_int_round_trip : int_round_trip_statement.
 Proof. exact NumProofs.int_round_trip. Qed.
+
+(* ---------------------------------------------------------------------------------------------------------------
+   STRUCTURAL PART: json.Unmarshal over a typed value tree (bool, sized integers, strings, pointers, slices, arrays,
+   maps with string keys, structs). The model (Json/TreeModel.v jdec / dec) follows json/decode.go function by
+   function and is tied to /repo and to encoding/json by the j.tree.dec cases (harness/c01tree.go) on every run; its
+   strings are uq_lit (proved above equal to the machine-translated parseStringUnquote), its integers the model over
+   the translated parseInt / parseUint (c02tree_dec_int_link), skipped values are read by the grammar of C05.
+   --------------------------------------------------------------------------------------------------------------- *)
+From Verif Require Import Json.TreeModel Json.TreeSpec Json.TreeDecSpec Json.TreeArrSpec Json.TreeShapeSpec
+  Json.TreeObjSpec Json.TreeFuelSpec.
+From Verif Require Json.TreeProofs Json.TreeEncProofs Json.TreeDecProofs Json.TreeArrProofs Json.TreeShapeProofs
+  Json.TreeObjProofs Json.TreeFuelProofs.
+
+
+(* Unmarshal (Marshal v) with ANY JSON white space between the tokens is the normalised value, for every type of the
+   universe, every value of the type and every fuel above the length of the document *)
+Theorem c02tree_dec_ws_roundtrip : tree_dec_ws_roundtrip_statement.
+Proof. exact TreeProofs.tree_dec_ws_roundtrip. Qed.
+
+(* white space between the tokens does not change what Unmarshal returns *)
+Theorem c02tree_dec_ws : tree_dec_ws_statement.
+Proof. exact TreeProofs.tree_dec_ws. Qed.
+
+(* the document null gives the zero value of every type; inside a document null clears pointers, slices and maps and
+   leaves every other target alone (decodePointer hands it to the inner pointer of a non-nil pointer to a pointer) *)
+Theorem c02tree_null : tree_null_statement.
+Proof. exact TreeProofs.tree_null. Qed.
+Theorem c02tree_null_inner : tree_null_inner_statement.
+Proof. exact TreeProofs.tree_null_inner. Qed.
+
+(* the integer reader of the model equals the model of decodeInt8 .. decodeUint64 over the MACHINE-TRANSLATED
+   parseInt / parseUint (Json/NumModel.v, C02) on every signed digit string followed by anything ending an integer *)
+Theorem c02tree_dec_int_link : tree_dec_int_link_statement.
+Proof. exact TreeProofs.tree_dec_int_link. Qed.
+
+(* the model decoder accepts only JSON texts of the RFC 8259 grammar: for EVERY type, fuel and document;
+   generalised: every decode function consumes a proper prefix that the grammar reads as one value *)
+Theorem c02tree_dec_valid : tree_dec_valid_statement.
+Proof. exact TreeDecProofs.tree_dec_valid. Qed.
+Theorem c02tree_dec_invalid : tree_dec_invalid_statement.
+Proof. exact TreeDecProofs.tree_dec_invalid. Qed.
+Theorem c02tree_dec_value : tree_dec_value_statement.
+Proof. exact TreeDecProofs.tree_dec_value. Qed.
+(* about the grammar itself: a successful g_value never needs more fuel than the input is long *)
+Theorem c02tree_g_value_sufficient : g_value_sufficient_statement.
+Proof. exact TreeDecProofs.g_value_sufficient. Qed.
+
+(* the decoder returns values of the target type (integers in range, arrays of the declared length, maps with
+   strictly increasing keys, structs with their fields), whatever the document and the current value *)
+Theorem c02tree_dec_shape : tree_dec_shape_statement.
+Proof. exact TreeShapeProofs.tree_dec_shape. Qed.
+Theorem c02tree_dec_shape_value : tree_dec_shape_value_statement.
+Proof. exact TreeShapeProofs.tree_dec_shape_value. Qed.
+Theorem c02tree_zero_shape : tree_zero_shape_statement.
+Proof. exact TreeShapeProofs.tree_zero_shape. Qed.
+Theorem c02tree_wf_shape : tree_wf_shape_statement.
+Proof. exact TreeShapeProofs.tree_wf_shape. Qed.
+Theorem c02tree_map_put_sorted : map_put_sorted_statement.
+Proof. exact TreeShapeProofs.map_put_sorted. Qed.
+
+(* fixed-size arrays take what fits: a JSON array of k elements decoded into [n]T sets the first elements, zeroes the
+   missing ones and skips the surplus ones (values of any type), with any white space *)
+Theorem c02tree_arr_fit : tree_arr_fit_statement.
+Proof. exact TreeArrProofs.tree_arr_fit. Qed.
+Theorem c02tree_arr_short : tree_arr_short_statement.
+Proof. exact TreeArrProofs.tree_arr_short. Qed.
+Theorem c02tree_arr_long : tree_arr_long_statement.
+Proof. exact TreeArrProofs.tree_arr_long. Qed.
+
+(* a struct is decoded from an object whose members come in ANY order, under the exact field name or a key equal
+   to it up to ASCII letter case (the first such field, when no field has exactly that name), with UNKNOWN members
+   (values of any type) anywhere; absent fields keep the zero value; any white space *)
+Theorem c02tree_obj_any_order : tree_obj_any_order_statement.
+Proof. exact TreeObjProofs.tree_obj_any_order. Qed.
+Theorem c02tree_apply_members_spec : apply_members_spec_statement.
+Proof. exact TreeObjProofs.apply_members_spec. Qed.
+Theorem c02tree_obj_permutation : tree_obj_permutation_statement.
+Proof. exact TreeObjProofs.tree_obj_permutation. Qed.
+
+(* the fuel is immaterial once it exceeds the length of the document: the same outcome (value, error or silence) for
+   every two such fuels, so the silence of the model never comes from an exhausted fuel; the same for the grammar *)
+Theorem c02tree_dec_fuel : tree_dec_fuel_statement.
+Proof. exact TreeFuelProofs.tree_dec_fuel. Qed.
+Theorem c02tree_dec_fuel_value : tree_dec_fuel_value_statement.
+Proof. exact TreeFuelProofs.tree_dec_fuel_value. Qed.
+Theorem c02tree_dec_fuel_canonical : tree_dec_fuel_canonical_statement.
+Proof. exact TreeFuelProofs.tree_dec_fuel_canonical. Qed.
+Theorem c02tree_g_value_fuel : g_value_fuel_statement.
+Proof. exact TreeFuelProofs.g_value_fuel. Qed.
